@@ -140,6 +140,38 @@ theorem C10_escape_xZZ (env : Env) :
     parse env ⟨true, true, true, true⟩ false false [0x5C, 0x78, 0x5A, 0x5A] = .ok (.cc [(0x253, 0x253)]) :=
   escape_xZZ env
 
+/-- `\p{script}` without case folding is exactly the script's table (documented behaviour) … -/
+theorem C10_namedSet_script_nofold (tabs : List NamedTable) (name : String) (t : NamedTable) (bytes : Bool)
+    (h1 : (name == "Any") = false) (h2 : (name == "Ascii") = false) (hb : bytes = false)
+    (hc : tabs.find? (fun t => t.name == name && t.kind == .category) = none)
+    (hs : tabs.find? (fun t => t.name == name && t.kind == .script) = some t) :
+    namedSet tabs false name false bytes = some t.table := by
+  subst hb
+  simp [namedSet, h1, h2, hc, hs]
+
+/-- … while the mirror of the pinned tree (FoldScript added unconditionally) puts U+00B5 into `\p{Greek}`. -/
+theorem C10_namedSet_script_current_tree_refuted :
+    namedSet [⟨"Greek", .script, [(0x370, 0x373)], [(0xB5, 0xB5)]⟩] true "Greek" false false =
+      some [(0x370, 0x373), (0xB5, 0xB5)] ∧
+    namedSet [⟨"Greek", .script, [(0x370, 0x373)], [(0xB5, 0xB5)]⟩] false "Greek" false false =
+      some [(0x370, 0x373)] := by
+  constructor <;> decide
+
+/-- In byte mode a single escaped rune ≥ 0x80 is never case-folded (documented behaviour: "no case folding
+for non-ASCII in bytes mode") … -/
+theorem C10_runeSet_bytes_nonascii (env : Env) (r : Int) (h : r ≥ 0x80) :
+    runeSet env Variant.strict true true r = [(r, r)] := by
+  simp [runeSet, Variant.strict, h]
+
+/-- … while the mirror of the pinned tree folds U+212A (KELVIN SIGN) to a set containing `'K'`. -/
+theorem C10_runeSet_bytes_current_tree_refuted :
+    Mem 75 (runeSet ⟨[[75, 107, 8490]], []⟩ ⟨true, true, true, true⟩ true true 8490) := by
+  have : runeSet ⟨[[75, 107, 8490]], []⟩ ⟨true, true, true, true⟩ true true 8490 =
+      fold [[75, 107, 8490]] true [(8490, 8490)] := by simp [runeSet]
+  rw [this, mem_fold]
+  right
+  exact ⟨[75, 107, 8490], by simp, by simp, ⟨8490, by simp, by simp [Mem]⟩, by intro _; decide⟩
+
 /-! ## Part 3: reference parser -/
 
 /-- A rejected pattern is rejected with a byte range inside the pattern (`0 ≤ lo` holds in `Nat`). -/
